@@ -13,6 +13,16 @@ from koreo.result import NonOkOutcome, PermFail
 from koreo.cel.prepare import Index, Overlay
 
 
+def _tree_text(tree) -> str:
+    # celpy's tree_dump raises (IndexError) on some trees, e.g. `x == []`.
+    if not tree:
+        return ""
+    try:
+        return tree_dump(tree)
+    except Exception:
+        return ""
+
+
 def evaluate(
     expression: celpy.Runner | None, inputs: dict[str, celtypes.Value], location: str
 ) -> None | celtypes.Value | PermFail:
@@ -28,7 +38,7 @@ def evaluate(
         return expression_value
 
     except celpy.CELEvalError as err:
-        tree = tree_dump(err.tree) if err and err.tree else ""
+        tree = _tree_text(err.tree)
         return PermFail(
             message=f"Error evaluating `{location}` (at {tree}) {err.args}",
             location=tree,
@@ -61,7 +71,7 @@ def evaluate_predicates(
         return predicate_to_koreo_result(raw_result, location=location)
 
     except celpy.CELEvalError as err:
-        tree = tree_dump(err.tree) if err and err.tree else ""
+        tree = _tree_text(err.tree)
         return PermFail(
             message=f"Error evaluating `{location}` (at {tree}) {err.args}",
             location=tree,
@@ -96,7 +106,7 @@ def evaluate_overlay(
             )
 
     except celpy.CELEvalError as err:
-        tree = tree_dump(err.tree) if err and err.tree else ""
+        tree = _tree_text(err.tree)
         return PermFail(
             message=f"Error evaluating `{location}` (at {tree}) {err.args}",
             location=tree,
@@ -141,7 +151,7 @@ def check_for_celevalerror(
 ) -> None | PermFail:
     match value:
         case celpy.CELEvalError(tree=error_tree):
-            tree = tree_dump(error_tree) if error_tree else ""
+            tree = _tree_text(error_tree)
             return PermFail(
                 message=f"Error evaluating `{location}` (at {tree}) {value.args}",
                 location=tree,
